@@ -117,6 +117,10 @@ def sharing(ctx, d1):
     ps, _ = run_paths(f.node)
     got = _stores(ps[0])
     new = 'self.__class__.__new__(self.__class__)'
+    # the shell may be built in a local first (imol = ...; new._imol = imol; imol.data = ...): a store through the local is a store to new._imol
+    shell = got.get(new + '._imol')
+    if shell and (new + '._imol.data') not in got and (shell + '.data') in got:
+        got[new + '._imol.data'] = got[shell + '.data']
     expect('Stream.flow_proxy', f, got, {
         new + '._imol': ('self._imol._copy_without_data()', 'own indexer shell (phase COPIED)'),
         new + '._imol.data': ('self._imol.data', 'flow data SHARED'),
